@@ -39,7 +39,7 @@ def install(ctx):
 def cases(ctx):
     rng = ctx.rng
     for i in range(ctx.n(2200, 9000)):
-        pos, neg, kind = gen.scores(rng, maxn=40)
+        pos, neg, kind = gen.scores(rng, maxn=40, big=bool(ctx.tier == "thorough" and rng.random() < 0.05))
         ep, en = gen.easy(rng)
         sc, ec = gen.cfg(rng)
         allv = np.concatenate([np.asarray(pos, float), np.asarray(neg, float)])
